@@ -67,22 +67,22 @@ Proof.
     specialize (IH W1). lia.
 Qed.
 
-(* ---------- ReadUintK / WriteUintK (spec: io.ReadFull) ---------- *)
+(* ---------- ReadUintK / WriteUintK ---------- *)
 
 Lemma codec_uint k : (0 < k)%nat ->
-  codec_ok (fun x => x < 256 ^ N.of_nat k) (write_uint k) (spec_read_uint (N.of_nat k)).
+  codec_ok (fun x => x < 256 ^ N.of_nat k) (write_uint k) (impl_read_uint (N.of_nat k)).
 Proof.
-  intro Hk. unfold spec_read_uint, write_uint. apply fixed_ok.
+  intro Hk. unfold impl_read_uint, write_uint. apply fixed_ok.
   - lia.
   - intros v _. apply be_enc_len.
   - intros v D. apply be_val_enc. exact D.
 Qed.
 
-(* off the trigger (no bytes, or at least w bytes) the code as written agrees with io.ReadFull *)
-Lemma impl_read_uint_off_trigger w s :
-  0 < w -> (s = [] \/ w <= len s) -> impl_read_uint w s = spec_read_uint w s.
+(* PRE-FIX reader (before 2257945): off the trigger (no bytes, or at least w bytes) it agreed with io.ReadFull *)
+Lemma old_read_uint_off_trigger w s :
+  0 < w -> (s = [] \/ w <= len s) -> old_read_uint w s = impl_read_uint w s.
 Proof.
-  intros Hw [-> | L]; unfold impl_read_uint, spec_read_uint, rd_read, rd_full.
+  intros Hw [-> | L]; unfold old_read_uint, impl_read_uint, rd_read, rd_full.
   - replace (w =? 0) with false by (symmetry; apply N.eqb_neq; lia).
     replace (w <=? len []) with false by (symmetry; apply N.leb_gt; rewrite len_nil; lia).
     reflexivity.
@@ -91,11 +91,11 @@ Proof.
     destruct s; [rewrite len_nil in L; lia | reflexivity].
 Qed.
 
-(* on the trigger it returns a zero-padded value with a nil error *)
-Lemma impl_read_uint_on_trigger w s :
-  0 < len s < w -> impl_read_uint w s = Ok (be_val (s ++ zeros (w - len s)), []).
+(* PRE-FIX reader: on the trigger it returned a zero-padded value with a nil error *)
+Lemma old_read_uint_on_trigger w s :
+  0 < len s < w -> old_read_uint w s = Ok (be_val (s ++ zeros (w - len s)), []).
 Proof.
-  intros [L1 L2]. unfold impl_read_uint, rd_read.
+  intros [L1 L2]. unfold old_read_uint, rd_read.
   destruct s as [|b s]; [rewrite len_nil in L1; lia|].
   replace (w <=? len (b :: s)) with false by (symmetry; apply N.leb_gt; lia).
   reflexivity.
@@ -123,10 +123,10 @@ Qed.
 
 Lemma codec_int k : (0 < k)%nat ->
   codec_ok (fun z => (- Z.of_N (2 ^ (8 * N.of_nat k - 1)) <= z < Z.of_N (2 ^ (8 * N.of_nat k - 1)))%Z)
-           (write_int k) (read_int true (N.of_nat k)).
+           (write_int k) (read_int (N.of_nat k)).
 Proof.
-  intro Hk. unfold write_int, read_int, read_uint.
-  apply (dmap_ok (fun x => x < 256 ^ N.of_nat k) _ (write_uint k) (spec_read_uint (N.of_nat k))
+  intro Hk. unfold write_int, read_int.
+  apply (dmap_ok (fun x => x < 256 ^ N.of_nat k) _ (write_uint k) (impl_read_uint (N.of_nat k))
                  (to_signed (8 * N.of_nat k)) (of_signed (8 * N.of_nat k))).
   - apply codec_uint. exact Hk.
   - intros z D. replace 256 with (2 ^ 8) by reflexivity. rewrite <- N.pow_mul_r.
@@ -278,7 +278,7 @@ Definition quad_of (u : bytes) : quad :=
   (be_val (firstn 4 u), (be_val (firstn 4 (skipn 4 u)),
    (be_val (firstn 4 (skipn 8 u)), be_val (skipn 12 u)))).
 Definition dec_quad : dec_t quad :=
-  dec_pair (spec_read_uint 4) (dec_pair (spec_read_uint 4) (dec_pair (spec_read_uint 4) (spec_read_uint 4))).
+  dec_pair (impl_read_uint 4) (dec_pair (impl_read_uint 4) (dec_pair (impl_read_uint 4) (impl_read_uint 4))).
 Definition dom_quad (q : quad) : Prop :=
   fst q < 256 ^ 4 /\ fst (snd q) < 256 ^ 4 /\ fst (snd (snd q)) < 256 ^ 4 /\ snd (snd (snd q)) < 256 ^ 4.
 
@@ -344,20 +344,20 @@ Proof.
   - cbn [fst snd]. unfold write_uint. rewrite !E by assumption. symmetry. apply uuid_chunks. exact L.
 Qed.
 
-Lemma read_uuid_ints_as_quad s : read_uuid_ints true s = dmap quad_bytes dec_quad s.
+Lemma read_uuid_ints_as_quad s : impl_read_uuid_ints s = dmap quad_bytes dec_quad s.
 Proof.
-  unfold read_uuid_ints, dmap, dec_quad, dec_pair, read_uint.
-  destruct (spec_read_uint 4 s) as [[a r1]|e]; [|reflexivity]. cbn [bind].
-  destruct (spec_read_uint 4 r1) as [[b r2]|e]; [|reflexivity]. cbn [bind].
-  destruct (spec_read_uint 4 r2) as [[c r3]|e]; [|reflexivity]. cbn [bind].
-  destruct (spec_read_uint 4 r3) as [[d r4]|e]; reflexivity.
+  unfold impl_read_uuid_ints, read_uuid_ints_with, dmap, dec_quad, dec_pair.
+  destruct (impl_read_uint 4 s) as [[a r1]|e]; [|reflexivity]. cbn [bind].
+  destruct (impl_read_uint 4 r1) as [[b r2]|e]; [|reflexivity]. cbn [bind].
+  destruct (impl_read_uint 4 r2) as [[c r3]|e]; [|reflexivity]. cbn [bind].
+  destruct (impl_read_uint 4 r3) as [[d r4]|e]; reflexivity.
 Qed.
 
-Lemma codec_uuid_ints : codec_ok dom_uuid write_uuid_ints (read_uuid_ints true).
+Lemma codec_uuid_ints : codec_ok dom_uuid write_uuid_ints (impl_read_uuid_ints).
 Proof.
   apply (codec_ok_ext dom_uuid
            (fun u => let q := quad_of u in write_uint 4 (fst q) ++ write_uint 4 (fst (snd q)) ++ write_uint 4 (fst (snd (snd q))) ++ write_uint 4 (snd (snd (snd q))))
-           write_uuid_ints (dmap quad_bytes dec_quad) (read_uuid_ints true)).
+           write_uuid_ints (dmap quad_bytes dec_quad) (impl_read_uuid_ints)).
   - intros u D. rewrite write_uuid_ints_eq, write_uuid_id by exact D.
     symmetry. apply (quad_roundtrip u D).
   - apply read_uuid_ints_as_quad.
